@@ -26,9 +26,33 @@ transmit the record `t ++ [0]` (declared size `|t| + 1`); the receiving callback
 message carries `t` alone; `GotXCutText` additionally finds a NUL after the `|t|` bytes (checked by
 the harness, not a model statement).
 
-Partial: texts so close to 1 MiB that the *compressed* message exceeds the message limit are
-excluded by the hypotheses `4 + |compress …| ≤ limit` (that depends on zlib's output size, which is
-not modelled); write/allocation failures are not modelled.
+Theorems (→ meaning for the property)
+  1  client_to_app_exact_classic      classic text reaches setXCutText byte-exact, any continuation
+     client_to_app_exact_provide      any provide(text) message with a well-formed record → exactly that record
+     client_notify_ignored            LibVNCClient's notify before each provide has no effect
+     client_to_app_exact_partial      SendClientCutTextUTF8(t) → setXCutTextUTF8(t ++ [0])   [partial, see below]
+     client_to_app_compressed_oversize  … and refused (sender closed) iff the compressed message exceeds the limit
+     client_to_app_no_invented_bytes  every delivered text is literally a record of the inflated stream (all flags, all streams)
+  2  app_to_clients_exact(_classic)   per-client output of both publish functions for EVERY population (fully connected = open ∧ NORMAL); cache updated
+     app_to_clients_wire              the exact bytes of classic / provide messages
+     handshake_client_receives_nothing  a client not yet in state NORMAL gets no message and no cache update
+  3  caps_negotiation                 sign-encoded lengths are refused before negotiation
+     caps_negotiation_enable          SetEncodings with the pseudo-encoding ⇔ enabled + capability message(s), only with the app callback
+     caps_negotiation_required        invariant over all inputs: no callback installed ⇒ never enabled, never a UTF-8 callback
+     caps_negotiation_update          exact effect of a client Caps message (length check, limits stored, text withdrawn)
+     caps_negotiation_unsolicited     provide/notify only within the client's announced capabilities
+  4  oversize_closes_classic/_extended/_record   limits exact: ≤ limit accepted, limit+1 closes, no callback
+     malformed_closes_short_record/_no_flags/_truncated   malformed ⇒ closed, nothing delivered (for every `env`)
+     oversize_closes_only_offender    all other clients and the configuration are untouched by any input of one client
+  5  request_then_provide, peek_then_notify, request_without_publish
+  6  client_roundtrip_provide/_classic/_caps, client_refuses_oversize, client_roundtrip_partial [partial]
+     zId_law                          the zlib law is satisfiable (tagged identity, used by the driver)
+
+Partial (`_partial`): the two compositions that go through a compressor are proved for every text
+whose *compressed* message fits the 1 MiB message limit; the unrestricted statement is false of the
+code (incompressible text within a few hundred bytes of 1 MiB) — see the comments at the theorems
+and `client_to_app_compressed_oversize`.  Not modelled: write/allocation failures, threads, other
+message types than ClientCutText/SetEncodings (server) and ServerCutText/Bell (client).
 -/
 namespace VncModel.Props.C18
 open VncModel.Clip VncModel.Gen.C18
@@ -184,21 +208,21 @@ theorem client_to_app_compressed_oversize (Z : Zlib) (env : Env) (cfg : Cfg) (cl
   rw [hpf]
   exact feed_closedStep Z env cfg cl _ _ _ _ _ ho (stepMsg_ext_oversize Z env cfg cl 0 0 0 _ _ he hbig h31)
 
-/-- witness for the exclusion: with the tagged-identity zlib (which satisfies `ZLaw`) a text of
-`2^20 - 6` bytes satisfies the record limit but its message does not fit -/
-example : ∃ t : Bytes,
-    t.length + 1 ≤ srvRecLimit ∧ 4 + ((2 : UInt8) :: record (t ++ [0])).length > srvMsgLimit :=
-  ⟨List.replicate 1048570 7, by rw [List.length_replicate]; decide, by
-    simp only [List.length_cons, record_length, List.length_append, List.length_replicate,
-      List.length_nil]
-    decide⟩
+/-- witness for the exclusion: with the tagged-identity zlib (`compressSync x = 2 :: x`, which
+satisfies `ZLaw`) every text of `2^20 - 6` bytes meets the record limit but its message does not fit -/
+example (t : Bytes) (h : t.length = 1048570) :
+    t.length + 1 ≤ srvRecLimit ∧ 4 + ((2 : UInt8) :: record (t ++ [0])).length > srvMsgLimit := by
+  have h1 : srvRecLimit = 1048576 := rfl
+  have h2 : srvMsgLimit = 1048576 := rfl
+  simp only [List.length_cons, record_length, List.length_append, List.length_nil]
+  omega
 
 /-! ## 2. application → every connected client -/
 
 /-- what one client must receive when the application publishes UTF-8 text `t` with optional
 Latin-1 fallback `fb` — written as a specification, independently of `sendUtf8One` -/
 def expectUtf8 (cl : Cl) (t : Bytes) (fb : Option Bytes) : List SMsg :=
-  if cl.isOpen = false then []
+  if cl.isOpen = false ∨ cl.normal = false then []
   else if cl.ext = true then
     if cl.userCap.testBit bProvide = true ∧ t.length ≤ cl.maxUnsol then [.provide (record (t ++ [0]))]
     else if cl.userCap.testBit bNotify = true then [.notify]
@@ -208,36 +232,50 @@ def expectUtf8 (cl : Cl) (t : Bytes) (fb : Option Bytes) : List SMsg :=
     | none => []
 
 /-- **`rfbSendServerCutTextUTF8` for every population** of extended, classic, not-yet-NORMAL and
-closed clients: each open extended client gets exactly one provide whose record is `t ++ [0]` with
-declared size `|t| + 1` (if its capabilities allow an unsolicited provide of `|t|` bytes), else one
-notify (if it accepts notifies), else nothing — never the fallback; each open classic client gets
-exactly the Latin-1 fallback (nothing if there is none); closed clients get nothing; and every
-extended client's cache then holds `t ++ [0]` for a later request. -/
+closed clients: each fully connected (open, state NORMAL) extended client gets exactly one provide
+whose record is `t ++ [0]` with declared size `|t| + 1` (if its capabilities allow an unsolicited
+provide of `|t|` bytes), else one notify (if it accepts notifies), else nothing — never the
+fallback; each fully connected classic client gets exactly the Latin-1 fallback (nothing if there is
+none); closed clients and clients still in the handshake get nothing and keep their record; and
+every fully connected extended client's cache then holds `t ++ [0]` for a later request. -/
 theorem app_to_clients_exact (s : Sys) (t : Bytes) (fb : Option Bytes) :
     (s.pub8 t fb).2 = s.cls.map (fun p => (p.1, expectUtf8 p.2 t fb)) ∧
     (s.pub8 t fb).1.cls = s.cls.map (fun p =>
-      (p.1, if p.2.isOpen = true ∧ p.2.ext = true then { p.2 with data := some (t ++ [0]) } else p.2)) := by
+      (p.1, if p.2.isOpen = true ∧ p.2.normal = true ∧ p.2.ext = true
+            then { p.2 with data := some (t ++ [0]) } else p.2)) := by
   constructor
   · simp only [Sys.pub8]
     apply List.map_congr_left
     intro p _
     simp only [sendUtf8One, expectUtf8]
-    cases p.2.isOpen <;> cases p.2.ext <;> cases fb <;>
+    cases p.2.isOpen <;> cases p.2.normal <;> cases p.2.ext <;> cases fb <;>
       cases hP : p.2.userCap.testBit bProvide <;> cases hN : p.2.userCap.testBit bNotify <;>
       by_cases hle : t.length ≤ p.2.maxUnsol <;> simp [hle]
   · simp only [Sys.pub8]
     apply List.map_congr_left
     intro p _
     simp only [sendUtf8One]
-    cases p.2.isOpen <;> cases p.2.ext <;> cases fb <;>
+    cases p.2.isOpen <;> cases p.2.normal <;> cases p.2.ext <;> cases fb <;>
       cases hP : p.2.userCap.testBit bProvide <;> cases hN : p.2.userCap.testBit bNotify <;>
       by_cases hle : t.length ≤ p.2.maxUnsol <;> simp [hle]
 
-/-- **`rfbSendServerCutText` (classic) for every population**: every client whose socket is open —
-extended or not, NORMAL or still in the handshake — gets exactly `t`; closed ones nothing. -/
+/-- **`rfbSendServerCutText` (classic) for every population**: every fully connected client —
+extended or not — gets exactly `t`; closed clients and clients still in the handshake nothing. -/
 theorem app_to_clients_exact_classic (s : Sys) (t : Bytes) :
-    s.pub t = s.cls.map (fun p => (p.1, if p.2.isOpen = true then [SMsg.classic t] else [])) := by
+    s.pub t = s.cls.map (fun p =>
+      (p.1, if p.2.isOpen = true ∧ p.2.normal = true then [SMsg.classic t] else [])) := by
   simp only [Sys.pub, sendClassicOne]
+  apply List.map_congr_left
+  intro p _
+  cases p.2.isOpen <;> cases p.2.normal <;> simp
+
+/-- **a client still in the handshake receives nothing** from either publish function, whatever
+its other fields say, and its record (in particular its cache) is left exactly as it was: no
+ServerCutText can land in the middle of a handshake (/repo 8f8266a). -/
+theorem handshake_client_receives_nothing (cl : Cl) (t : Bytes) (fb : Option Bytes)
+    (h : cl.normal = false) :
+    sendClassicOne cl t = [] ∧ sendUtf8One cl t fb = (cl, []) := by
+  simp [sendClassicOne, sendUtf8One, h]
 
 /-- the bytes on the wire: classic = type 3, padding, `|t|` big-endian, `t`; provide = type 3,
 padding, minus (4 + compressed size) as a 32-bit two's complement, the provide|text flag word, the
@@ -252,10 +290,10 @@ theorem app_to_clients_wire (Z : Zlib) (t : Bytes) :
   · simp [SMsg.wire, record, msgServerCutText, srvProvideFlags, bProvide, bText]
 
 /-- non-vacuity: a mixed population (extended with small unsolicited limit, extended default,
-classic, closed) -/
+classic, closed, still in the handshake) -/
 example : (Sys.pub8 ⟨⟨true⟩, [(0, { ext := true, maxUnsol := 2 }), (1, { ext := true }), (2, {}),
-      (3, { isOpen := false })]⟩ [65, 66, 67] (some [63])).2 =
-    [(0, [.notify]), (1, [.provide (record [65, 66, 67, 0])]), (2, [.classic [63]]), (3, [])] := by
+      (3, { isOpen := false }), (4, { normal := false })]⟩ [65, 66, 67] (some [63])).2 =
+    [(0, [.notify]), (1, [.provide (record [65, 66, 67, 0])]), (2, [.classic [63]]), (3, []), (4, [])] := by
   decide
 
 /-! ## 3. capability negotiation -/
@@ -353,7 +391,7 @@ theorem caps_negotiation_unsolicited (cl : Cl) (t : Bytes) (fb : Option Bytes) :
     (SMsg.notify ∈ (sendUtf8One cl t fb).2 → cl.ext = true ∧ cl.userCap.testBit bNotify = true) ∧
     (cl.ext = false → ∀ m ∈ (sendUtf8One cl t fb).2, ∃ f, fb = some f ∧ m = .classic f) := by
   simp only [sendUtf8One]
-  cases cl.isOpen <;> cases cl.ext <;> cases fb <;>
+  cases cl.isOpen <;> cases cl.normal <;> cases cl.ext <;> cases fb <;>
     cases hP : cl.userCap.testBit bProvide <;> cases hN : cl.userCap.testBit bNotify <;>
     by_cases hle : t.length ≤ cl.maxUnsol <;> simp [hle]
 
@@ -539,14 +577,14 @@ answered with exactly one provide whose record is the published text plus NUL, d
 This holds whether the publish itself sent a provide, only a notify, or nothing. -/
 theorem request_then_provide (Z : Zlib) (env : Env) (cfg : Cfg) (cl : Cl) (t : Bytes)
     (fb : Option Bytes) (flags : Nat) (junk : Bytes)
-    (ho : cl.isOpen = true) (he : cl.ext = true) (hfl : flags < 4294967296)
+    (ho : cl.isOpen = true) (hn : cl.normal = true) (he : cl.ext = true) (hfl : flags < 4294967296)
     (hcaps : flags.testBit bCaps = false) (hreq : flags.testBit bRequest = true) :
     (sendUtf8One cl t fb).1 = { cl with data := some (t ++ [0]) } ∧
     handleExt Z env cfg (sendUtf8One cl t fb).1 (be32 flags ++ junk) =
       ⟨(sendUtf8One cl t fb).1, [],
        if cl.userCap.testBit bProvide = true then [.provide (record (t ++ [0]))] else []⟩ := by
   have hst : (sendUtf8One cl t fb).1 = { cl with data := some (t ++ [0]) } := by
-    simp only [sendUtf8One, ho, he]
+    simp only [sendUtf8One, ho, hn, he]
     cases cl.userCap.testBit bProvide <;> cases cl.userCap.testBit bNotify <;>
       by_cases hle : t.length ≤ cl.maxUnsol <;> simp [hle]
   refine ⟨hst, ?_⟩
@@ -560,12 +598,12 @@ theorem request_then_provide (Z : Zlib) (env : Env) (cfg : Cfg) (cl : Cl) (t : B
 /-- **peek → notify**: likewise a Peek is answered with one notify iff the client accepts notifies. -/
 theorem peek_then_notify (Z : Zlib) (env : Env) (cfg : Cfg) (cl : Cl) (t : Bytes)
     (fb : Option Bytes) (flags : Nat) (junk : Bytes)
-    (ho : cl.isOpen = true) (he : cl.ext = true) (hfl : flags < 4294967296)
+    (ho : cl.isOpen = true) (hn : cl.normal = true) (he : cl.ext = true) (hfl : flags < 4294967296)
     (hcaps : flags.testBit bCaps = false) (hreq : flags.testBit bRequest = false)
     (hpeek : flags.testBit bPeek = true) :
     handleExt Z env cfg (sendUtf8One cl t fb).1 (be32 flags ++ junk) =
       ⟨(sendUtf8One cl t fb).1, [], if cl.userCap.testBit bNotify = true then [.notify] else []⟩ := by
-  have hst := (request_then_provide Z env cfg cl t fb (2 ^ 25) [] ho he (by decide) (by decide) (by decide)).1
+  have hst := (request_then_provide Z env cfg cl t fb (2 ^ 25) [] ho hn he (by decide) (by decide) (by decide)).1
   have hlen : ¬ (be32 flags ++ junk).length < extMinLen := by simp [be32_length, extMinLen]
   have hrd : rd32 (be32 flags ++ junk) = flags := rd32_be32 flags hfl junk
   rw [hst]
@@ -746,7 +784,7 @@ sitting on the connection of an open extended client whose capabilities allow th
 provide gets `GotXCutTextUTF8 (t ++ [0])`; one on an open classic connection gets `GotXCutText f`.
 Partial: the compressed-size hypothesis of the extended half. -/
 theorem client_roundtrip_partial (Z : Zlib) (hZ : ZLaw Z) (env : Env) (cl : Cl) (c : LC) (t f : Bytes)
-    (ho : cl.isOpen = true) :
+    (ho : cl.isOpen = true) (hn : cl.normal = true) :
     (cl.ext = true → cl.userCap.testBit bProvide = true → t.length ≤ cl.maxUnsol → c.hasU8 = true →
       t.length + 1 ≤ cliRecLimit → 4 + (Z.compress (record (t ++ [0]))).length ≤ cliMsgLimit →
       cliFeed Z env c ((expectUtf8 cl t (some f)).flatMap (SMsg.wire Z)) =
@@ -757,16 +795,70 @@ theorem client_roundtrip_partial (Z : Zlib) (hZ : ZLaw Z) (env : Env) (cl : Cl) 
   constructor
   · intro he hp hle hu hs hm
     have : expectUtf8 cl t (some f) = [.provide (record (t ++ [0]))] := by
-      simp [expectUtf8, ho, he, hp, hle]
+      simp [expectUtf8, ho, hn, he, hp, hle]
     rw [this]
     have h := client_roundtrip_provide Z hZ env c (t ++ [0]) [] hu (by simp) (by simpa using hs) hm
     simpa [cliFeed_nil] using h
   · intro he hl1 hl
     have : expectUtf8 cl t (some f) = [.classic f] := by
-      simp [expectUtf8, ho, he]
+      simp [expectUtf8, ho, hn, he]
     rw [this]
     have h := client_roundtrip_classic Z env c f [] hl1 hl
     simpa [cliFeed_nil] using h
+
+
+/-! ## non-vacuity: the theorems instantiated with the tagged-identity zlib -/
+
+/-- the "compression" the driver uses for streams the two libraries exchange: a tag byte, then the
+data; it satisfies `ZLaw` -/
+def zId : Zlib :=
+  ⟨fun z => match z with | 1 :: x => ⟨x, .done⟩ | 2 :: x => ⟨x, .more⟩ | _ => ⟨[], .err⟩,
+   fun x => 1 :: x, fun x => 2 :: x⟩
+
+theorem zId_law : ZLaw zId := ⟨fun _ => rfl, fun _ => rfl, fun _ => by simp [zId], fun _ => by simp [zId]⟩
+
+/-- client → application, extended: "hi" with the library client as sender arrives as "hi\0" -/
+example : ∃ w, cliSendUtf8 zId ⟨true, true, 1⟩ [104, 105] = some w ∧
+    (feed zId ⟨0⟩ ⟨true⟩ { ext := true } w).cbs = [Cb.utf8 [104, 105, 0]] := by
+  obtain ⟨w, h1, h2⟩ := client_to_app_exact_partial zId zId_law ⟨0⟩ ⟨true⟩ { ext := true }
+    ⟨true, true, 1⟩ [104, 105] [] rfl rfl (by decide) (by decide) (by decide)
+  refine ⟨w, h1, ?_⟩
+  rw [List.append_nil] at h2
+  rw [h2, feed_nil]; rfl
+
+/-- a flag word with unknown bits (16..23, 27, 29) still counts as provide(text) -/
+example : ((2 ^ 28 + 2 ^ 29 + 2 ^ 27 + 2 ^ 20 + 1 : Nat).testBit bCaps = false) ∧
+    ((2 ^ 28 + 2 ^ 29 + 2 ^ 27 + 2 ^ 20 + 1 : Nat).testBit bProvide = true) ∧
+    (∀ i, 1 ≤ i → i < 16 → (2 ^ 28 + 2 ^ 29 + 2 ^ 27 + 2 ^ 20 + 1 : Nat).testBit i = false) :=
+  ⟨by decide, by decide, bits_of_range _ (by decide)⟩
+
+/-- enabling: three encodings, the pseudo-encoding twice -/
+example : stepMsg zId ⟨0⟩ ⟨true⟩ {} ((2 : UInt8) :: 0 ::
+      UInt8.ofNat ([encExtendedClipboard, 0, encExtendedClipboard].length / 256) ::
+      UInt8.ofNat ([encExtendedClipboard, 0, encExtendedClipboard].length % 256) ::
+      ([encExtendedClipboard, 0, encExtendedClipboard].flatMap be32 ++ [])) =
+    Step.next { ext := true } [] [.caps, .caps] 16 := by
+  rw [caps_negotiation_enable zId ⟨0⟩ ⟨true⟩ {} 0 [encExtendedClipboard, 0, encExtendedClipboard] []
+    (by decide) (by decide)]
+  rfl
+
+/-- record limit: the hypotheses of `oversize_closes_record` are met by size `limit + 1` -/
+example : zId.inflateAll (1 :: (be32 (srvRecLimit + 1) ++ [1, 2, 3])) = ⟨be32 (srvRecLimit + 1) ++ [1, 2, 3], .done⟩ ∧
+    srvRecLimit + 1 < 4294967296 ∧ srvRecLimit + 1 > srvRecLimit := ⟨rfl, by decide, by decide⟩
+
+/-- short record: declared 100, present 3 -/
+example : handleExt zId ⟨7⟩ ⟨true⟩ { ext := true } (be32 (2 ^ 28 + 1) ++ (1 :: (be32 100 ++ [1, 2, 3]))) =
+    ⟨closeCl { ext := true }, [], []⟩ :=
+  malformed_closes_short_record zId ⟨7⟩ ⟨true⟩ { ext := true } (2 ^ 28 + 1) 100 _ [1, 2, 3] .done
+    (by decide) (by decide) (by decide) (by decide) (by decide) (by decide) rfl (by decide) (by decide)
+
+/-- server → client: a provide of "ok\0" decodes to the same three bytes -/
+example : (cliFeed zId ⟨0⟩ ⟨true, true, 0⟩ (SMsg.wire zId (.provide (record [111, 107, 0])))).cbs =
+    [CCb.utf8 [111, 107, 0]] := by
+  have h := client_roundtrip_provide zId zId_law ⟨0⟩ ⟨true, true, 0⟩ [111, 107, 0] [] rfl (by simp)
+    (by decide) (by decide)
+  rw [List.append_nil] at h
+  rw [h, cliFeed_nil]
 
 
 end VncModel.Props.C18
